@@ -3,6 +3,7 @@ C16 — Results do not depend on earlier generator calls in the same process.
 -/
 import TableauVerif.Model.Process
 import TableauVerif.Generated.Caches
+import TableauVerif.Generated.Globals
 namespace TableauVerif.Props.C16
 open TableauVerif.Model.Process
 
@@ -85,5 +86,82 @@ theorem pin_cache_keys :
     Generated.Caches.referCacheKeyArg = "cacheKey" ∧
     Generated.Caches.referCacheKeyDef = "cacheKey := fmt.Sprintf(\"%p|%s|%s\", input.PRFiles, input.InputDir, refer)" := by
   decide
+
+/-! ### tie to the source: the inventory of process-wide state (regenerated on every run)
+
+`C16_refines` is about the state a call can leave behind for the next one. In Go that is exactly the
+package-level variables. The extractor lists every one of them; the copy below is the list the model was
+written against. Those that are written after start-up, and how the model / the fixes account for them:
+
+* `internal/x/xproto.enumCache`, `internal/confgen/fieldprop.referredCache` — the two caches of the model
+  (`pin_cache_keys`: keyed by the call's input identity);
+* `internal/importer/book.MetasheetName` — set from the options at the start of every generator call (fix D15c);
+* `internal/localizer.Default`, `internal/localizer/i18n.bundles` — language set at the start of every call,
+  bundles a lazily filled table of embedded files (the same content whoever loads them first);
+* `internal/confgen.fieldOptionsPool`, `internal/importer/book.cellPool` — object pools: recycled objects are
+  re-initialised on `Get` (the determinism stream of C04 watches that);
+* `log.defaultLogger`, `log.gOpts`, `log/driver.registeredDrivers` — logging set-up, not part of any output.
+
+Everything else is a constant table (compiled regexps, default values, error values, format lists).
+A variable that is not in this list is state the model knows nothing about: the pin breaks. -/
+
+def expectedGlobals : List (String × String × String) := [
+  ("format", "InputFormats", "[]Format{…}"),
+  ("format", "OutputFormats", "[]Format{…}"),
+  ("format", "inputDocumentFormats", "map[Format]bool{…}"),
+  ("internal/confgen", "fieldOptionsPool", "*sync.Pool"),
+  ("internal/confgen/fieldprop", "referRegexp", "*regexp.Regexp"),
+  ("internal/confgen/fieldprop", "referredCache", "*ReferredCache"),
+  ("internal/importer", "ErrSheetNotFound", "errors.New(…)"),
+  ("internal/importer", "attrRegexp", "*regexp.Regexp"),
+  ("internal/importer", "defaultTopN", "uint"),
+  ("internal/importer", "metasheetRegexp", "*regexp.Regexp"),
+  ("internal/importer", "tagRegexp", "*regexp.Regexp"),
+  ("internal/importer", "yamlSheetNameRegexp", "*regexp.Regexp"),
+  ("internal/importer/book", "MetasheetName", "DefaultMetasheetName"),
+  ("internal/importer/book", "cellPool", "*sync.Pool"),
+  ("internal/importer/book", "newlineRegex", "*regexp.Regexp"),
+  ("internal/localizer", "Default", "*Localizer"),
+  ("internal/localizer/i18n", "bundles", "map[string]*Bundle"),
+  ("internal/localizer/i18n", "languages", "[]string{…}"),
+  ("internal/localizer/i18n", "localeFS", "embed.FS"),
+  ("internal/protogen", "emptyFieldProp", "&tableaupb.FieldProp{…}"),
+  ("internal/types", "boringIntegerRegexp", "regexp.MustCompile(…)"),
+  ("internal/types", "enumRegexp", "regexp.MustCompile(…)"),
+  ("internal/types", "keyedListRegexp", "regexp.MustCompile(…)"),
+  ("internal/types", "listRegexp", "regexp.MustCompile(…)"),
+  ("internal/types", "mapRegexp", "regexp.MustCompile(…)"),
+  ("internal/types", "propRegexp", "regexp.MustCompile(…)"),
+  ("internal/types", "scalarRegexp", "regexp.MustCompile(…)"),
+  ("internal/types", "structRegexp", "regexp.MustCompile(…)"),
+  ("internal/types", "typeKindMap", "map[string]Kind"),
+  ("internal/types", "wellKnownMessages", "map[string]string"),
+  ("internal/x/xproto", "DefaultBoolValue", "pref.Value"),
+  ("internal/x/xproto", "DefaultBytesValue", "pref.Value"),
+  ("internal/x/xproto", "DefaultComparatorValue", "pref.Value"),
+  ("internal/x/xproto", "DefaultDurationValue", "pref.Value"),
+  ("internal/x/xproto", "DefaultEnumValue", "pref.Value"),
+  ("internal/x/xproto", "DefaultFloat32Value", "pref.Value"),
+  ("internal/x/xproto", "DefaultFloat64Value", "pref.Value"),
+  ("internal/x/xproto", "DefaultFractionValue", "pref.Value"),
+  ("internal/x/xproto", "DefaultInt32Value", "pref.Value"),
+  ("internal/x/xproto", "DefaultInt64Value", "pref.Value"),
+  ("internal/x/xproto", "DefaultStringValue", "pref.Value"),
+  ("internal/x/xproto", "DefaultTimestampValue", "pref.Value"),
+  ("internal/x/xproto", "DefaultUint32Value", "pref.Value"),
+  ("internal/x/xproto", "DefaultUint64Value", "pref.Value"),
+  ("internal/x/xproto", "ErrDuplicateKey", "fmt.Errorf(…)"),
+  ("internal/x/xproto", "enumCache", "*EnumCache"),
+  ("log", "defaultLogger", "*Logger"),
+  ("log", "gOpts", "*Options"),
+  ("log/core", "sinkMap", "map[string]SinkType{…}"),
+  ("log/driver", "registeredDrivers", "make(…)"),
+  ("log/driver/zapdriver", "modeMap", "map[string]LogModeEncoder{…}"),
+  ("store", "timestampPattern", "literal string"),
+  ("store", "tsRegexp", "*regexp.Regexp"),
+  ("xerrors", "keys", "[]string{…}")
+]
+
+theorem pin_globals : Generated.Globals.vars = expectedGlobals := by rfl
 
 end TableauVerif.Props.C16
